@@ -825,8 +825,9 @@ func (t *ZeroAllocTokenizer) tokenizeTemplatePath(path string) {
 	path = strings.TrimSpace(path)
 
 	// If it's a quoted string
-	if (strings.HasPrefix(path, "\"") && strings.HasSuffix(path, "\"")) ||
-		(strings.HasPrefix(path, "'") && strings.HasSuffix(path, "'")) {
+	// (a lone quote character is both prefix and suffix: it is not a quoted string)
+	if len(path) >= 2 && ((strings.HasPrefix(path, "\"") && strings.HasSuffix(path, "\"")) ||
+		(strings.HasPrefix(path, "'") && strings.HasSuffix(path, "'"))) {
 		// Extract content without quotes
 		content := path[1 : len(path)-1]
 		t.AddToken(TOKEN_STRING, content, t.line)
